@@ -173,16 +173,25 @@ def rand_cfg(rng):
 
 
 def wl_segments(ctx, rng, case_no):
+    from rv.model import textview as TV
     items = gen_segments(rng)
     cfg = rand_cfg(rng)
     system, no_color, terminal, legacy = cfg
-    console = make_console(system, no_color, terminal, legacy)
+    # optionally a console-wide style and / or a print(style=...): both are applied UNDER the segment's own style
+    cstyle = G.rand_record(rng, p_attr=0.1, p_link=0.0) if rng.random() < 0.12 else None
+    pstyle = G.rand_record(rng, p_attr=0.1, p_link=0.0) if rng.random() < 0.12 else None
+    console = make_console(system, no_color, terminal, legacy, **({"style": G.build(cstyle)} if cstyle else {}))
     wit = {"segments": _items_json(items), "color_system": system, "no_color": no_color,
-           "is_terminal": terminal, "legacy_windows": legacy}
-    console.print(SegList(real_segments(items)), crop=False)
+           "is_terminal": terminal, "legacy_windows": legacy,
+           "console_style": G.definition(cstyle) if cstyle else None, "print_style": G.definition(pstyle) if pstyle else None}
+    console.print(SegList(real_segments(items)), crop=False, style=G.build(pstyle) if pstyle else None)
     stream = console.file.getvalue()
     wit["stream"] = stream
-    check_stream(ctx, stream, items, cfg, wit)
+    expect_items = items
+    if cstyle or pstyle:
+        under = [r for r in (pstyle, cstyle) if r]
+        expect_items = [(k, t, TV.fold_records(under + ([r] if r else [])) if k == "text" else r) for k, t, r in items]
+    check_stream(ctx, stream, expect_items, cfg, wit)
     ctx.hist("config", "%s%s%s%s" % (system, "/no_color" if no_color else "", "" if terminal else "/notty",
                                      "/legacy" if legacy else ""))
     vis = {G.definition(r) if r else None for k, t, r in items if k == "text" and t}
